@@ -13,6 +13,8 @@ mod awrite;
 mod bio;
 mod alloc;
 #[cfg(all(feature = "alloc", feature = "half"))]
+mod toks;
+#[cfg(all(feature = "alloc", feature = "half"))]
 mod disp;
 #[cfg(feature = "std")]
 mod sinks;
@@ -52,7 +54,9 @@ fn cmd_cases(args: &[String]) -> i32 {
             c["exp"]["sink"] = abs::bytes(&b);
         }
         #[cfg(all(feature = "alloc", feature = "half"))]
-        let ok = if c["fam"] == "display" { disp::matches(&obs, &c["exp"]) } else { abs::matches(&obs, &c["exp"]) };
+        let ok = if c["fam"] == "display" { disp::matches(&obs, &c["exp"]) }
+                 else if c["fam"] == "tok" { toks::matches(c["name"].as_str().unwrap(), &obs, &c["exp"]) }
+                 else { abs::matches(&obs, &c["exp"]) };
         #[cfg(not(all(feature = "alloc", feature = "half")))]
         let ok = abs::matches(&obs, &c["exp"]);
         if !ok {
